@@ -28,7 +28,7 @@ def run(ctx, rep):
         "inside the child loop is a constant False conditional on the recursive comparison of the pair at the same index, and "
         "True is reachable only after the loop; each dict field is compared symmetrically (length + key-wise, or ==); every "
         "early-exit guard is evaluated on equal and on different field values")
-    rep.rules_run = ["R1", "R2", "R3", "R4", "R5"]
+    rep.rules_run = ["R1", "R2", "R3", "R4", "R5", "R6"]
     prog = ctx.prog
     w = ctx.world
     nm = w.nm
@@ -236,6 +236,77 @@ def run(ctx, rep):
                         f"flag or a condition): trees that differ there compare equal, and not symmetrically", fi.loc(t))
     rep.floor("guard verdicts", 12)
     rep.floor("dict fields", 3)
+    _verdict_worlds(ctx, rep, fi)
+
+
+def _verdict_worlds(ctx, rep, fi):
+    """R6: is_equal touches the two trees through ==, !=, len, key look-ups and indexing only, so its answer is a function of
+    which fields agree.  It is folded over pairs of abstract nodes: all fields equal (must answer true), and, for every field,
+    equal but for that field in each way two values of its kind can differ (must answer false) -- in both argument orders, at
+    the root and one level down."""
+    from ..peval import PEval, PEvalUnsupported, Raised
+    import copy as _c
+
+    def mk(name="a", content="c", tail="t", attributes=None, nsmap=None, prefix="p", extras=None, children=None):
+        attributes = {"k": "v", "k2": "v2"} if attributes is None else attributes
+        nsmap = {"p": "u", "q": "u2"} if nsmap is None else nsmap
+        extras = {"{u}x": "1", "{u}y": "2"} if extras is None else extras
+        children = [] if children is None else children
+        d = {"__obj__": True, "id": object(), "parent": None}
+        for k, v in (("name", name), ("content", content), ("tail", tail), ("attributes", attributes), ("nsmap", nsmap), ("prefix", prefix),
+                     ("extras", extras), ("children", children)):
+            d[k] = v
+            d["_" + k] = v
+        d["_id"] = d["id"]
+        d["_parent"] = None
+        return d
+
+    def kids(*names, **kw):
+        return [mk(name=n, **kw) for n in names]
+    variants = [("all fields equal", {}, {}, True)]
+    for f, (a, b) in {"name": ("a", "b"), "content": ("c", "d"), "tail": ("t", "u"), "prefix": ("p", "q")}.items():
+        variants.append((f"{f} differs", {f: a}, {f: b}, False))
+        variants.append((f"{f} None vs text", {f: a}, {f: None}, False))
+    for f, base in (("attributes", {"k": "v", "k2": "v2"}), ("nsmap", {"p": "u", "q": "u2"}), ("extras", {"{u}x": "1", "{u}y": "2"})):
+        ks = list(base)
+        variants.append((f"{f}: same keys, one value differs", {f: dict(base)}, {f: {ks[0]: base[ks[0]], ks[1]: "other"}}, False))
+        variants.append((f"{f}: same size, one key differs", {f: dict(base)}, {f: {ks[0]: base[ks[0]], "zz": base[ks[1]]}}, False))
+        variants.append((f"{f}: one entry more", {f: dict(base)}, {f: dict(base, extra="e")}, False))
+        variants.append((f"{f}: empty vs one entry", {f: {}}, {f: {ks[0]: base[ks[0]]}}, False))
+    variants.append(("children: one more", {"children": kids("x", "y")}, {"children": kids("x", "y", "z")}, False))
+    variants.append(("children: none vs one", {"children": []}, {"children": kids("x")}, False))
+    variants.append(("children: first differs", {"children": kids("x", "y", "z")}, {"children": kids("w", "y", "z")}, False))
+    variants.append(("children: last differs", {"children": kids("x", "y", "z")}, {"children": kids("x", "y", "w")}, False))
+    variants.append(("children: same names, other order", {"children": kids("x", "y")}, {"children": kids("y", "x")}, False))
+    variants.append(("children: equal lists", {"children": kids("x", "y")}, {"children": kids("x", "y")}, True))
+    variants.append(("grandchild content differs", {"children": [mk(name="x", children=kids("g"))]},
+                     {"children": [mk(name="x", children=kids("g", content="other"))]}, False))
+    variants.append(("grandchild attribute differs", {"children": [mk(name="x", children=kids("g"))]},
+                     {"children": [mk(name="x", children=kids("g", attributes={"k": "v", "k2": "zz"}))]}, False))
+    for (what, ka, kb, want) in variants:
+        for swap in (False, True):
+            n1, n2 = mk(**_c.deepcopy(ka)), mk(**_c.deepcopy(kb))
+            if swap:
+                n1, n2 = n2, n1
+            pe = PEval(ctx.world)
+            try:
+                got = pe.call(fi, [n1, n2])
+                if hasattr(got, "__class__") and got.__class__.__name__ == "Opaque":
+                    raise PEvalUnsupported("opaque answer")
+                got_b, how = bool(got), repr(got)
+            except Raised as r:
+                got_b, how = None, f"raises {r.cls}"
+            except PEvalUnsupported as ex:
+                rep.notes.append(f"is_equal not folded for '{what}': {ex}")
+                continue
+            rep.count("equality verdicts")
+            ok = got_b is not None and got_b == want
+            rep.oblige(("R6", what, swap), ok, sample={"pair": what, "swapped": swap, "answer": how, "required": want})
+            if not ok:
+                rep.add("R6", fi.qname, what, f"two trees with {what}{' (arguments swapped)' if swap else ''}: is_equal answers {how}; "
+                        f"structural equality requires {want}", fi.loc())
+                break
+    # no floor: a form of is_equal the folder cannot follow leaves R6 undecided (noted in the evidence) and R1-R5 in charge
 
 
 def _flag_from_rec(fi, lp, gs, rec):
